@@ -19,6 +19,11 @@ CLAIMED = {
          "Trusted: Coq kernel/VM, engine model, sort.Slice as an oracle with the stated contract, NumLaws premise on doubles (no NaN), harness. Print Assumptions: only primitive float/int63 declarations.", None),
  "C03": ("Coq theorems for all tables / grouping columns / select lists: the engine's ordered linear-scan grouping equals the textbook group_by (every row in exactly one group, same group iff equal on every grouping column, members in source order, groups in first-appearance order with no iteration-order parameter, conservation law), every aggregate is the textbook fold over exactly its group's members (whole-table path: over the rows that passed WHERE; COUNT 0 / NULLs on the empty set), calls are independent, HAVING = filter over groups, WHERE-then-group composition on run_select. Tie: generated tables x GROUP BY / HAVING / multi-aggregate select lists through the real engine and the model, every query repeated 6x (24x thorough) to detect order instability.",
          "Trusted: Coq kernel/VM, engine model, harness. Float equality/order laws are premises proved from the stdlib's FloatAxioms (eqb_spec, ltb_spec - listed by Print Assumptions for C03_float_laws_hold); all other theorems list only primitive float/int63 declarations.", None),
+ "C02": ("Coq theorems for all rows, select lists and expression trees of any depth: evaluating an expression and resolving its wrapper equals a wrapper-free denotation (IEEE primitives, int64 helpers for DIV & | ^ << >> ~, CASE first-true-wins, missing key = NULL, NULL operand of binary arithmetic = NULL); one output object per row equal to the specification's projection with exactly the select list's names as keys (later duplicates win, * merges); output i depends on row i only; no engine-internal key unless the source has it; lifted to run_select. Tie: generated tables x select lists (all 11 binary operators, unary, CASE, nested paths, literals, shifts -1..70) through the real engine and the model, exact objects with numbers as bit patterns.",
+         "Trusted: Coq kernel/VM, engine model, Go's float64<->int64 conversion as modelled in Model/Num.v (out-of-range = OutOfModel), harness. Print Assumptions: only primitive float/int63 declarations.", None),
+ "C11": ("Coq theorem over all traces and all prefixes (= every point at which evaluation can stop with an error): if every write targets an object the execution allocated itself, every object of the caller's document keeps its content; the repaired marker protocol (scope copy) is fresh, the pinned one is refuted. Tied to the source on every run by (a) the regenerated mutation-site table (go/ast translator, 96 sites today) checked in Coq against the fresh-or-audited criterion and (b) cycle-safe deep comparison of the input after every generated query of every shape, with and without Wrapped, incl. queries failing part-way.",
+         "Trusted: Coq kernel/VM; the translator's syntactic provenance rule and the audited list (Gen/SiteRules.v); Go's aliasing semantics; harness deep comparison. Theorems closed under the global context.",
+         "machine-checked proof in Coq (trace theorem) + structural obligation regenerated from source and checked by vm_compute + deep-comparison correspondence"),
 }
 
 NOT_YET = "check not built yet in this round (work in progress; planned as Coq proof + correspondence per DESIGN.md)"
